@@ -26,6 +26,8 @@ META = {
 
 META['explanation'] += ' ' + 'R5 samples 8 byte fields beyond 2^32 and instants with non-zero UTC offsets. R7: no truncating mask in front of a width-limited write (bit splits whose other half is written are accepted).'
 
+META['explanation'] += ' ' + 'R8: timestamp fields receive the stored attribute (a constant in place of None never writes the sentinel).'
+
 LOCAL_TIME = {'time.mktime', 'time.localtime', 'time.timezone', 'time.altzone', 'time.daylight', 'time.tzname', 'time.ctime',
               'time.asctime', 'time.strftime'}
 
